@@ -132,6 +132,39 @@ def parse_dump(path, want=None):
         yield st
 
 
+_STATE_LINE = re.compile(r'^State \d+:$')
+
+
+def iter_dump(path, want=None, shard=None):
+    """Streaming variant of parse_dump (constant memory). shard = (i, n): only the blocks whose index is i modulo n."""
+    def emit(block):
+        st = {}
+        for m in _VAR.finditer(block):
+            st[m.group(1)] = parse(m.group(2))
+        if not st:
+            m = re.match(r'\s*(\w+) = (.*)\Z', block, re.S)
+            if m:
+                st[m.group(1)] = parse(m.group(2))
+        return st
+    idx = -1
+    lines = None
+    with open(path) as f:
+        for line in f:
+            if _STATE_LINE.match(line.rstrip("\n")):
+                if lines is not None:
+                    block = "".join(lines).rstrip("\n")
+                    if (shard is None or idx % shard[1] == shard[0]) and (want is None or want(block)):
+                        yield emit(block)
+                idx += 1
+                lines = []
+            elif lines is not None:
+                lines.append(line)
+    if lines is not None:
+        block = "".join(lines).rstrip("\n")
+        if (shard is None or idx % shard[1] == shard[0]) and (want is None or want(block)):
+            yield emit(block)
+
+
 _SIM_STATE = re.compile(r'STATE_(\d+) ==\s*\n(.*?)(?=\n\n|\Z)', re.S)
 
 
